@@ -212,12 +212,29 @@ def _realize_args(args: Sequence[Any]) -> List[int]:
     return [int(deep_realize(a)) for a in args]
 
 
+def _assume_bounds(args: Sequence[Any], specs: Sequence[Arg]) -> None:
+    """The stated bound as a solver assumption (no forking: a `pre:` would split 3 ways per argument)."""
+    from crosshair.statespace import context_statespace
+    from crosshair.tracers import NoTracing
+    from crosshair.libimpl.builtinslib import SymbolicInt
+    import z3  # type: ignore
+
+    with NoTracing():
+        space = context_statespace()
+        for a, s in zip(args, specs):
+            if isinstance(a, SymbolicInt):
+                space.add(z3.And(a.var >= s.lo, a.var <= s.hi))
+            elif not (s.lo <= a <= s.hi):
+                raise AssertionError("concrete argument outside its bound")
+
+
 def make_wrapper(job: Job, stats: Stats) -> Callable[..., None]:
     specs = job.args
     fn = job.fn
 
     def w(*args):
-        assert all(s.lo <= a <= s.hi for a, s in zip(args, specs))
+        assert args is not None  # (asserts-mode needs a leading assert; the bound is assumed below)
+        _assume_bounds(args, specs)
         stats.paths += 1
         CTX.reached = False
         try:
